@@ -284,6 +284,10 @@ fn solver_level(rep: &Reporter, prop: &str) -> (crate::bnb::Agg, Vec<Value>, boo
             mk("KP-4", variants_kp(), true, None),
             mk("KP-5", variants_kp(), true, Some(if th { 413_343 } else { 60_000 })),
             mk("KPB-6", variants_kp(), true, None),
+            // set packing with a CONTENT DEPENDENT variable order and the superset dominance rule (as a user of the misp example who adds
+            // a rule): entries recorded for nodes which are never developed are not derived again under another order (D13 family)
+            mk("SP-3", variants_sp_dom(), false, None),
+            mk("SP-4", variants_sp_dom(), true, Some(if th { 5184 } else { 2000 })),
             // the complete 5-layer butterfly family under the weakened rule with bonus relaxation (width 1: the restricted
             // diagram truncates what it records in the dominance store -- input of the known finding D13)
             Plan { fam: family("TM-B5"), variants: variants_dom().into_iter().filter(|v| v.dom == crate::model::Dom::Weak && v.bonus && v.rank == crate::model::Rank::Asc).collect(), rotate: false,
